@@ -268,16 +268,28 @@ fn main() {
     std::fs::write(
         src.join("hcmut.rs"),
         r#"//! run-time switch of the compiled-in first-order mutants (selftest scratch worktrees only)
+use std::sync::atomic::{AtomicBool, Ordering};
 use std::sync::OnceLock;
-static ACTIVE: OnceLock<(u32, Option<String>)> = OnceLock::new();
+static ACTIVE: OnceLock<(u32, Option<String>, Option<String>)> = OnceLock::new();
+static SEEN: [AtomicBool; 4096] = [const { AtomicBool::new(false) }; 4096];
+/// HCMUT=<id>: that mutant is on. HCMUT_PROBE=<file>: the site only reports that it was reached.
+/// HCMUT_COVER=<dir>: every site reports (one empty file per id) that its switch was evaluated.
 #[inline]
 pub fn on(id: u32) -> bool {
-    let (a, probe) = ACTIVE.get_or_init(|| {
+    let (a, probe, cover) = ACTIVE.get_or_init(|| {
         (
             std::env::var("HCMUT").ok().and_then(|s| s.parse().ok()).unwrap_or(0),
             std::env::var("HCMUT_PROBE").ok(),
+            std::env::var("HCMUT_COVER").ok(),
         )
     });
+    if let Some(dir) = cover {
+        if let Some(flag) = SEEN.get(id as usize) {
+            if !flag.swap(true, Ordering::Relaxed) {
+                let _ = std::fs::OpenOptions::new().create(true).append(true).open(format!("{dir}/{id}"));
+            }
+        }
+    }
     if *a != id {
         return false;
     }
